@@ -837,3 +837,74 @@ func c06RecursiveLock(c *Ctx) {
 	recursiveLockRule(c, "C06.lock", []string{"offset_manager.go", "consumer_group.go"})
 }
 func c15RecursiveLock(c *Ctx) { recursiveLockRule(c, "C15.lock", []string{"client.go"}) }
+
+// C15.sorted-writable / empty-not-nil: for a topic the client knows, setPartitionCache returns a list — possibly
+// empty — never nil (WritablePartitions tells "unknown topic" from "no writable partition" by nil).
+func c15EmptyNotNil(c *Ctx) {
+	rule := "C15.sorted-writable"
+	fn := c.NeedFn(rule, "client.setPartitionCache")
+	if fn == nil {
+		return
+	}
+	reg := WholeFn(fn)
+	unknown := Cmp{token.EQL, func(v ssa.Value) bool {
+		lk, ok := strip(v).(*ssa.Lookup)
+		return ok && FieldLoad("client.metadata")(lk.X)
+	}, IsNil()}
+	n := 0
+	for _, r := range reg.Find(IsReturn()) {
+		ret := r.In.(*ssa.Return)
+		rv := RetVals(ret)
+		if len(rv) == 0 || IsRecoverBlock(ret.Block()) {
+			continue
+		}
+		n++
+		// can the value be nil?  Leaves through φ and append's first operand
+		canBeNil := false
+		seen := map[ssa.Value]bool{}
+		var walk func(v ssa.Value, d int)
+		walk = func(v ssa.Value, d int) {
+			if v == nil || seen[v] || d > 10 {
+				return
+			}
+			seen[v] = true
+			switch x := strip(throughCell(v)).(type) {
+			case *ssa.Phi:
+				for i, e := range x.Edges {
+					// nil carried in over an edge on which the topic was found unknown is the permitted nil
+					if cst, isC := e.(*ssa.Const); isC && cst.IsNil() && i < len(x.Block().Preds) {
+						pred := x.Block().Preds[i]
+						if Establishes(pred, x.Block(), unknown) {
+							continue
+						}
+						if g, _ := reg.Guarded(Item{In: lastInstr(pred)}, unknown); g {
+							continue
+						}
+					}
+					walk(e, d+1)
+				}
+			case *ssa.Call:
+				if b, ok := x.Call.Value.(*ssa.Builtin); ok && b.Name() == "append" && len(x.Call.Args) > 0 {
+					// append(nil-or-x, …) is nil only if x is and nothing was appended — keep following x
+					walk(x.Call.Args[0], d+1)
+				}
+			case *ssa.Const:
+				if x.IsNil() {
+					canBeNil = true
+				}
+			case *ssa.Slice:
+				walk(x.X, d+1)
+			}
+		}
+		walk(rv[0], 0)
+		if !canBeNil {
+			c.Check(true, rule, fn, "empty-not-nil", ret, "the list returned is made, not nil", "", nil)
+			continue
+		}
+		g, path := reg.Guarded(r, unknown)
+		c.Check(g, rule, fn, "empty-not-nil", ret, "nil is returned only for a topic that is not in the metadata", "setPartitionCache can return nil for a topic that IS in the metadata (a list declared `var ret []int32` and only appended to): with no writable partition the writable list is nil, and WritablePartitions reports ErrUnknownTopicOrPartition where it should report an empty list — a topic whose partitions are all in leader election looks deleted", path)
+	}
+	if n == 0 {
+		c.Unresolved(rule, "returns of setPartitionCache")
+	}
+}
